@@ -30,7 +30,7 @@ def check(ctx):
     trace = os.path.join(ctx.scratch, "race.ndjson")
     logp = os.path.join(ctx.scratch, "racelog")
     env = dict(GOENV, GORACE="halt_on_error=0 log_path=%s" % logp)
-    p = subprocess.run([drv, "race", "-seed", str(ctx.seed), "-in", beh, "-n", str(nprog), "-big", "24" if quick else "300", "-out", trace],
+    p = subprocess.run([drv, "race", "-scratch", ctx.scratch, "-seed", str(ctx.seed), "-in", beh, "-n", str(nprog), "-big", "24" if quick else "300", "-out", trace],
                        cwd=ctx.scratch, env=env, stdout=subprocess.PIPE, stderr=subprocess.STDOUT, text=True, timeout=3000)
     if p.returncode not in (0, 66):
         raise Undecided("race driver failed (%d): %s" % (p.returncode, p.stdout[-2000:]))
